@@ -79,6 +79,10 @@ M = [
  ("tokio responder ignores the send result", 'simple-mdns/src/async_discovery/simple_responder.rs',
   "if let Err(err) = sender_socket.send_to(&reply, reply_addr).await {\n                                log::error!(\"Failed to send reply {err}\");\n                            }",
   "let _ = sender_socket.send_to(&reply, reply_addr).await;", 'untied:mdns.responder_send:tokio'),
+ ("ResourceRecord::into_owned drops the cache-flush bit", D + 'resource_record.rs', "cache_flush: self.cache_flush,\n        }\n    }\n\n    fn write_common", "cache_flush: false,\n        }\n    }\n\n    fn write_common", 'fail:into_owned_fieldwise'),
+ ("MINFO::into_owned exchanges the mailboxes", D + 'rdata/minfo.rs', "rmailbox: self.rmailbox.into_owned(),\n            emailbox: self.emailbox.into_owned(),", "rmailbox: self.emailbox.into_owned(),\n            emailbox: self.rmailbox.into_owned(),", 'fail:into_owned_fieldwise'),
+ ("SOA::into_owned takes minimum from expire", D + 'rdata/soa.rs', "minimum: self.minimum,", "minimum: self.expire as u32,", 'fail:into_owned_fieldwise'),
+ ("MX::into_owned via struct update syntax", D + 'rdata/mx.rs', "MX {\n            preference: self.preference,\n            exchange: self.exchange.into_owned(),\n        }", "MX { exchange: self.exchange.clone().into_owned(), ..self }", 'untied:own:MX'),
  ("mdns refresh in millis", 'simple-mdns/src/resource_record_manager.rs', 'added + Duration::from_secs(ttl / 2)', 'added + Duration::from_millis(ttl / 2)', 'untied:mdns.expiration'),
 ]
 
